@@ -1,0 +1,39 @@
+//go:build verif
+
+package cluster
+
+import (
+	"go.uber.org/zap"
+
+	"github.com/linkedin/Burrow/core/internal/helpers"
+	"github.com/linkedin/Burrow/core/protocol"
+)
+
+// Verification hooks (build tag "verif" only).
+
+// VerifNewKafkaCluster builds a KafkaCluster module with just the fields the refresh cycle uses.
+// fetchMetadata starts true, as Start leaves it.
+func VerifNewKafkaCluster(app *protocol.ApplicationContext, name string) *KafkaCluster {
+	return &KafkaCluster{
+		App:           app,
+		Log:           zap.NewNop(),
+		name:          name,
+		fetchMetadata: true,
+	}
+}
+
+// VerifGetOffsets runs one refresh cycle (getOffsets) against the given client.
+func (module *KafkaCluster) VerifGetOffsets(client helpers.SaramaClient) {
+	module.getOffsets(client)
+}
+
+// VerifReapNonExistingGroups runs the groups reaper once.
+func (module *KafkaCluster) VerifReapNonExistingGroups(client helpers.SaramaClient) {
+	module.reapNonExistingGroups(client)
+}
+
+// VerifFetchMetadata reports the fetchMetadata flag.
+func (module *KafkaCluster) VerifFetchMetadata() bool { return module.fetchMetadata }
+
+// VerifSetFetchMetadata sets the fetchMetadata flag (what the metadata ticker does).
+func (module *KafkaCluster) VerifSetFetchMetadata(v bool) { module.fetchMetadata = v }
